@@ -54,7 +54,7 @@ TEXT = {
          'to be panic-free (no unwrap/expect/panic!/index/remove out of range/arithmetic overflow reachable) and terminating for ALL inputs, with no precondition or only the documented ones; lemmas show that every decoded value meets the helpers\' serialisability precondition. '
          'Termination of the Header <-> CoseSignature <-> ProtectedHeader recursion is proved with the measure (16 - depth, value) introduced by the nesting-limit fix, so re-parse depth is at most 16 and Value-level depth is bounded by ciborium\'s 256. '
          'NOT decided by contracts: stack bytes, wall time, heap (no cost model) and compiler-generated Clone/PartialEq/Drop: a bounded measurement on the real crate (2 MiB stack, nesting 15/16/3000/100000) runs with every check and is reported as bounded.', '4 C01'),
- 'C07': ('For every type the decoder is verified against an iff acceptance predicate plus a result relation and the encoder against a functional data-model spec; lemmas prove that every decoded value (any nesting) encodes successfully. The fixed point is proved at EVERY nesting level (counter signatures, their protected and unprotected headers, recipients of recipients) for Header, CoseSignature, CoseSign1, CoseSign, CoseMac0, CoseMac, CoseEncrypt0, CoseEncrypt, CoseRecipient and ClaimsSet: if v is accepted with result x and v1 is any Value whose data-model view is what to_cbor_value(x) returns, then v1 is accepted with the SAME result x (retained protected bytes included), every result of decoding v1 equals x field by field at every level, and it encodes to the same data-model value (hence the same bytes) again; for CoseKey decode(encode(k)) = k. Hypothesis of these lemmas (not an axiom): re-parsing the bytes ciborium wrote yields a Value with the serialised data-model view (false only for NaN payloads, which the property excludes). CoseKey / CoseKeySet: a decoded key encodes and every decoding of its encoding is view-equal to it (element-wise for sets). KDF-context types: decode and encode contracts only (no fixed-point lemma). Tagged forms: the generic tagged methods are verified against Self::TAG. A bounded round-trip probe on the real crate runs in the thorough tier.', '4 C07'),
+ 'C07': ('For every type the decoder is verified against an iff acceptance predicate plus a result relation and the encoder against a functional data-model spec; lemmas prove that every decoded value (any nesting) encodes successfully. The fixed point is proved at EVERY nesting level (counter signatures, their protected and unprotected headers, recipients of recipients) for Header, CoseSignature, CoseSign1, CoseSign, CoseMac0, CoseMac, CoseEncrypt0, CoseEncrypt, CoseRecipient and ClaimsSet: if v is accepted with result x and v1 is any Value whose data-model view is what to_cbor_value(x) returns, then v1 is accepted with the SAME result x (retained protected bytes included), every result of decoding v1 equals x field by field at every level, and it encodes to the same data-model value (hence the same bytes) again; for CoseKey decode(encode(k)) = k. Hypothesis of these lemmas (not an axiom): re-parsing the bytes ciborium wrote yields a Value with the serialised data-model view (false only for NaN payloads, which the property excludes). CoseKey / CoseKeySet: a decoded key encodes and every decoding of its encoding is view-equal to it (element-wise for sets). PartyInfo / SuppPubInfo / CoseKdfContext: the same fixed-point lemmas. Tagged forms: the generic tagged methods are verified against Self::TAG. A bounded round-trip probe on the real crate runs in the thorough tier.', '4 C07'),
  'C11': ("Every to_cbor_value is verified against a functional spec X_cv(self) written from the CDDL (non-empty field once under its IANA label / in its slot, empties omitted, extras in order, empty protected -> zero-length bstr, single counter signature inlined, None -> nil, recipients omitted when empty) with success iff X_encodable(self); to_vec/to_tagged_vec give enc(vv(v)) and S1 (assumed) makes that the definite-length shortest-head encoding. Decode-of-encode = identity is proved for CoseKey, for in-memory header maps without counter signatures and for in-memory ClaimsSets (any value meeting the decoder's value rules); for values with counter signatures / recipients it is proved for those obtained by decoding (C07 lemmas), not for arbitrary in-memory nesting.", '4 C11'),
  'C12': ('Decode: the acceptance predicates of Header (every nesting level), CoseKey and ClaimsSet contain pairwise-distinct labels and the decoders are verified to accept iff the predicate holds, so every map with a repeated label is rejected whatever the values and positions; error kind: when the first defect in wire order is a repeated label (all earlier pairs valid and distinct) the result is proved to be Err(DuplicateMapKey) for all three decoders. Encode: Header and CoseKey are verified to succeed iff no extra label repeats another or names a populated typed field, and lemmas prove the emitted keys pairwise distinct; ClaimsSet has no check (KNOWN FINDING, pinned by an existing test). Builders: reserved-label guards verified + necessity copies.', '4 C12'),
  'C20': ('canonicalize is verified (with the assumed std contract of sort_by and the comparator contracts of C16) to leave every other field unchanged, to permute params (multiset equality) and to leave them sorted under the chosen comparator; lemmas prove that a key with distinct, non-typed, non-zero extra labels then encodes with strictly ascending map keys, for both orders: Label order (= bytewise order of the encoded keys, C16) and length-first order (cmp_canonical = length first, then bytewise, on the encodings ciborium emits). Canonicalising again is a no-op: proved for keys with pairwise distinct extra labels (uniqueness of the sorted arrangement), and checked on the real function called twice (for the length-first order under the hypothesis that distinct labels have distinct encodings). Label 0 is a KNOWN FINDING.', '4 C20'),
